@@ -21,6 +21,13 @@ from tdda.constraints.base import DatasetConstraints  # noqa: E402
 from tdda.constraints.db.drivers import database_connection, DatabaseHandler  # noqa: E402
 
 DECLS = {'integer': 'int', 'real': 'real', 'text': 'string', 'varchar': 'string', 'boolean': 'bool', 'datetime': 'date'}
+BASE_DECLS = list(DECLS)
+# other declared types of the driver's table that mean the same (and have the same SQLite affinity)
+SYNONYMS = {'integer': ['tinyint', 'smallint', 'bigint', 'int'], 'real': ['double', 'float'], 'text': ['char', 'nvarchar'],
+            'boolean': ['bool'], 'datetime': ['timestamp', 'date']}
+for _b, _l in SYNONYMS.items():
+    for _s in _l:
+        DECLS[_s] = DECLS[_b]
 NAMES = ['c', 'Col x', 'sel"ect', 'select', 'ü', "it's", 'a-b', 'x]y', 'ba`ck', 'ORDER', 'q""q', '"', "'", 'a.b', 'n°', '%s',
          'tab\tbed', 'semi;colon', '--dash', 'min', 'type']
 TEXTS = ['a', 'b', 'abc', "it's", 'back\\slash', 'ünï', '', ' sp ', 'a"b', 'x%y', '日本', 'A1', 'b2', "''", 'line\nbreak', "'",
@@ -61,7 +68,7 @@ def gen_table(rng):
     cols = []
     used = set()
     for j in range(rng.randint(1, 4)):
-        decl = rng.choice(list(DECLS))
+        decl = rng.choice(BASE_DECLS)
         name = rng.choice(NAMES)
         if rng.random() < 0.5 or name.lower() in used:
             name = name + str(j)
@@ -84,6 +91,8 @@ def gen_table(rng):
                 cells.append(rng.choice(DATES[:3]) if small else rng.choice(DATES))
         if decl in ('text', 'varchar') and rng.random() < 0.1:
             cells = [None if c is None else 'cat%02d' % rng.randint(0, 24) for c in cells]
+        if decl in SYNONYMS and rng.random() < 0.3:
+            decl = rng.choice(SYNONYMS[decl])
         cols.append({'name': name, 'decl': decl, 'cells': cells})
     return {'nrows': n, 'cols': cols}
 
